@@ -255,10 +255,13 @@ def pool_jobs(tier_quick=True, want=("seq", "conc"), nseq=None, nconc=None):
             else:
                 ros = [("R1", "plain")] + ([("R2", rng.choice(["plain", "sharded"]))] if rng.random() < 0.5 else [])
                 readers = [plain(rd) if kd == "plain" else {"kind": "sharded", "dir": "@TOP@/" + rd, "shards": 2} for rd, kd in ros]
+                # a byte-equality checker on some stacks: every value written for a key that a read-only level holds then agrees with that copy
+                # (so that no comparison fails on a correct library and promotions / comparisons really happen)
+                ck = rng.choice(["none", "none", "eq"])
                 if kind == "stack":
-                    cache, wdirs = stack(plain("W", cap), readers, "none"), ["W"]
+                    cache, wdirs = stack(plain("W", cap), readers, ck), ["W"]
                 else:
-                    cache, wdirs = stack(sharded("W", 2, max(2, cap)), readers, "none"), ["W/.kismet_0000", "W/.kismet_0001"]
+                    cache, wdirs = stack(sharded("W", 2, max(2, cap)), readers, ck), ["W/.kismet_0000", "W/.kismet_0001"]
                     shardcap = (max(2, cap) + 1) // 2
             world, rokeys = pool_world(rng, wdirs, ros, keys)
             nops = rng.choice([8, 14, 22])
@@ -275,6 +278,8 @@ def pool_jobs(tier_quick=True, want=("seq", "conc"), nseq=None, nconc=None):
                     o["srcmode"] = rng.choice([0o600, 0o644, 0o664, 0o666])
                 if api == "gou":
                     o["judge"] = rng.choice(["accept", "promote", "replace"])
+                if cache["kind"] == "stack" and cache.get("checker") == "eq" and "val" in o:
+                    o["val"], o["chunks"], o["w"] = "ro-%s" % k, 1, 0        # one value per key: every comparison the checker makes agrees
                 prog.append(o)
             cfg = {"roots": roots_of(cache), "front": cache["kind"], "cap": cap, "seq": True, "rokeys": rokeys}
             if shardcap:
@@ -284,7 +289,9 @@ def pool_jobs(tier_quick=True, want=("seq", "conc"), nseq=None, nconc=None):
             stages = [seq_stage(part(9, plain("SRC/none"), world, NEVER)),
                       seq_stage(dict(part(1, cache, with_vals(prog, 1), rng.choice([ALWAYS, NEVER, str(rng.getrandbits(64) | 1)]),
                                           shard_script=[rng.randrange(8) for _ in range(40)], umask=umask)))]
-            jobs.append(job("POOL-seq-%d" % r, stages, cfg, None, fam="pool:seq:%s:cap%s" % (kind, cap)))
+            if cache["kind"] == "stack":
+                cfg["checker"] = cache.get("checker", "none")
+            jobs.append(job("POOL-seq-%d" % r, stages, cfg, None, fam="pool:seq:%s:cap%s%s" % (kind, cap, ":eq" if cfg.get("checker") == "eq" else "")))
     if "conc" in want:
         for r in range(nconc):
             fr = rng.choice(fronts(rng.choice([1, 3, 100000]), ("plain", "sharded", "stack")))
@@ -555,7 +562,10 @@ def population_ops(d, files, strays=0, dots=(), temps=()):
         ops.append(op("mkdir", path="@TOP@/%s/sub%d" % (d, i)))
         ops.append(op("mkfile", path="@TOP@/%s/sub%d/inner" % (d, i), raw="x"))
     for (name, ago, isdir) in dots:
-        if isdir:
+        if isinstance(isdir, str):
+            # a name that is not valid UTF-8: `isdir` carries the raw bytes (hex) appended to the name; old and marked as read
+            ops.append(op("mkfile", path="@TOP@/%s/%s" % (d, name), name_hex=isdir, raw="appdata", mt_ago=ago, at_ago=ago - 5))
+        elif isdir:
             ops.append(op("mkdir", path="@TOP@/%s/%s" % (d, name)))
             ops.append(op("mkfile", path="@TOP@/%s/%s/inner" % (d, name), raw="appdir"))
         else:
@@ -652,6 +662,10 @@ def check_C17(work):
             dots = [(".appdata", 2000.0, False), (".appdir", 0, True)]
             if k % 2 == 0:
                 dots.append((".newer", 1.0, False))
+            # application dot files whose names are not valid UTF-8 (Latin-1 bytes), older than every entry
+            dots.append((".caf", 5000.0, "e92e636f6e66"))
+            if k % 2 == 1:
+                dots.append((".x", 4000.0, "ff"))
             temps = [("debris%d" % i, a, False) for i, a in enumerate(ages)] + [("nested", 4000, True), ("future", -7200, False)]
             world = population_ops("W", files, 1, dots=dots, temps=temps)
             prog = [op("set", "znew%d" % k, "new"), op("put", "zput%d" % k, "new2")]
@@ -840,7 +854,7 @@ def check_C18(work):
     st = trace_check(work, out, jobs, mons, tag="c18", key_of=key_of, conform=True)
     # behaviours of Kismet.tla with one failing call (position uniform over the behaviour), replayed into the real library
     st = add_replay(work, out, st, ["DirValid", "NoLeak", "HandleContentOK", "Immutable", "DebrisConfined"], Q(150, 1500),
-                    names=["RPfault", "RPfaultsh", "RPfaulte", "RPfault2", "RPfaults"])
+                    names=["RPfault", "RPfaultsh", "RPfaulte", "RPfault2", "RPfaults", "RPfaultw"])
     design = design_runs(work, out, Q(["MCfault1", "MCfault2"], ["MCfault1", "MCfault2", "MCfault3"]))
     ms = st.get("mstats", {})
     cov = dict(evaluations=st["runs"], distinct_nontrivial=ms.get("injected", 0),
@@ -891,10 +905,13 @@ def check_C03(work):
     def key_of(job, mon, ev, evs):
         inj = (evs[0].get("cfg") or {}).get("inject") or {}
         return "%s@%s@%s" % (mon, job.get("fam"), inj.get("call", "clean"))
-    st = trace_check(work, out, jobs, mons, tag="c03", key_of=key_of)
+    st = trace_check(work, out, jobs, mons, tag="c03", key_of=key_of, conform=True)
     st = add_pool(work, out, st, ["DurableFirst", "Immutable"])
+    # behaviours of the stacked model (set / put / *_temp_file staged outside the cache, ensure miss and promotion, one failing call) replayed
+    st = add_replay(work, out, st, ["DurableFirst", "ReadOnlyFirst", "Immutable", "Mode0444", "DirValid"], Q(60, 600),
+                    names=["RPstack", "RPpromote", "RPstackw", "RPfaultw", "RPfaulte"])
     ms = st.get("mstats", {})
-    design = design_runs(work, out, ["MCstack2", "MCstack3"])
+    design = design_runs(work, out, Q(["MCstack2", "MCstack3", "MCstack4"], ["MCstack2", "MCstack3", "MCstack4", "MCfault3"]))
     cov = coverage_mc(st, design, "every publishing API path of the stacked cache (set, put, set_temp_file, put_temp_file, ensure miss/hit/promote, get_or_update "
                       "replace/promote) x {plain, sharded} writer x {1, 3} chunks, complete system-call trace; then every fsync of the operation failing in turn; "
                       "per-inode write/fsync/chmod/link/rename order judged by DurableFirst (flushed after the last write, not failed, read-only, before the "
@@ -1503,7 +1520,7 @@ def check_C11(work):
             jobs.append(job("C11-%s-%d" % (fname, r), [seq_stage(p1)], cfg, None, fam=fname))
     mons = ["SeqMapOK", "OneCopy", "UnexplainedLoss", "SrcConsumed", "PruneOK", "DirValid", "HandleContentOK", "RemovalOK"]
     st = trace_check(work, out, jobs, mons, tag="c11")
-    st = add_pool(work, out, st, ["SeqMapOK", "OneCopy", "UnexplainedLoss", "SrcConsumed", "PruneOK"], want=('seq',))
+    st = add_pool(work, out, st, ["SeqMapOK", "OneCopy", "UnexplainedLoss", "SrcConsumed", "PruneOK", "DirValid", "HandleContentOK"], want=('seq',))
     design = design_runs(work, out, Q(["MCsc4", "MCshard1"], ["MCsc4", "MCclean", "MCshard1"]))
     cov = coverage_mc(st, design, "seeded sequential histories (12-40 operations quick, up to 200 thorough) of set/put/get/touch(/ensure) over <= 6 keys through 1-3 independent "
                       "handles on the same directories; plain (capacities 1, 2, 4, 9, huge), sharded (2-8 shards, total capacity n .. 3n+1 and huge; key hashes chosen to "
